@@ -389,4 +389,348 @@ theorem moveToTail_spec (c : Cache K V) (A B : List (Tr K V)) (t : Tr K V) (hr :
       · show some t.1 = _
         rw [lastOf_append_singleton]
 
+def ent (t : Tr K V) : K × V := (t.2.1, t.2.2)
+
+theorem lookupIdx_mem (idx : List (K × Nat)) (k : K) (i : Nat) (h : lookupIdx idx k = some i) : (k, i) ∈ idx := by
+  induction idx with
+  | nil => simp [lookupIdx] at h
+  | cons p r ih =>
+    obtain ⟨k', j⟩ := p
+    simp only [lookupIdx] at h
+    split at h
+    · rename_i heq; cases h; subst heq; simp
+    · exact List.mem_cons_of_mem _ (ih h)
+
+theorem lookupIdx_none (idx : List (K × Nat)) (k : K) (h : lookupIdx idx k = none) : ∀ i, (k, i) ∉ idx := by
+  induction idx with
+  | nil => simp
+  | cons p r ih =>
+    obtain ⟨k', j⟩ := p
+    simp only [lookupIdx] at h
+    split at h
+    · cases h
+    · rename_i hne
+      intro i hi
+      rcases List.mem_cons.mp hi with h1 | h1
+      · cases h1; exact hne rfl
+      · exact ih h i h1
+
+theorem rep_lookup_some (c : Cache K V) (L : List (Tr K V)) (hr : Rep c L) (k : K) (i : Nat)
+    (h : lookupIdx c.idx k = some i) : ∃ v A B, L = A ++ (i, k, v) :: B := by
+  have h1 := hr.idx.mem_iff.mp (lookupIdx_mem _ _ _ h)
+  obtain ⟨t, ht, heq⟩ := List.mem_map.mp h1
+  obtain ⟨A, B, hL⟩ := List.append_of_mem ht
+  obtain ⟨i', k', v⟩ := t
+  simp only [Prod.mk.injEq] at heq
+  obtain ⟨rfl, rfl⟩ := heq
+  exact ⟨v, A, B, hL⟩
+
+theorem rep_lookup_none (c : Cache K V) (L : List (Tr K V)) (hr : Rep c L) (k : K)
+    (h : lookupIdx c.idx k = none) : ∀ t ∈ L, t.2.1 ≠ k := by
+  intro t ht heq
+  have : (k, t.1) ∈ c.idx := hr.idx.mem_iff.mpr (List.mem_map.mpr ⟨t, ht, by simp [heq]⟩)
+  exact lookupIdx_none _ _ h _ this
+
+theorem find_none (L : List (Tr K V)) (k : K) (h : ∀ t ∈ L, t.2.1 ≠ k) : Spec.find (L.map ent) k = none := by
+  induction L with
+  | nil => rfl
+  | cons t r ih =>
+    have h1 : t.2.1 ≠ k := h t (by simp)
+    simp [Spec.find, ent, h1]
+    exact ih (fun u hu => h u (by simp [hu]))
+
+theorem find_some (A B : List (Tr K V)) (t : Tr K V) (hA : ∀ u ∈ A, u.2.1 ≠ t.2.1) :
+    Spec.find ((A ++ t :: B).map ent) t.2.1 = some t.2.2 := by
+  induction A with
+  | nil => simp [Spec.find, ent]
+  | cons u r ih =>
+    have h1 : u.2.1 ≠ t.2.1 := hA u (by simp)
+    have := ih (fun w hw => hA w (by simp [hw]))
+    simp only [List.cons_append, List.map_cons, Spec.find, ent, h1, if_false] at this ⊢
+    exact this
+
+theorem erase_found (A B : List (Tr K V)) (t : Tr K V) (hne : ∀ u ∈ A ++ B, u.2.1 ≠ t.2.1) :
+    Spec.erase ((A ++ t :: B).map ent) t.2.1 = (A ++ B).map ent := by
+  have hA : ∀ u ∈ A, u.2.1 ≠ t.2.1 := fun u hu => hne u (List.mem_append_left _ hu)
+  have hB : ∀ u ∈ B, u.2.1 ≠ t.2.1 := fun u hu => hne u (List.mem_append_right _ hu)
+  have hf : ∀ X : List (Tr K V), (∀ u ∈ X, u.2.1 ≠ t.2.1) →
+      (X.map ent).filter (fun p => decide (¬ (p.1 = t.2.1))) = X.map ent := by
+    intro X hX
+    rw [List.filter_eq_self]
+    intro p hp
+    obtain ⟨u, hu, rfl⟩ := List.mem_map.mp hp
+    simp [ent, hX u hu]
+  simp only [Spec.erase, List.map_append, List.filter_append, List.map_cons, List.filter_cons]
+  rw [hf A hA, hf B hB]
+  simp [ent]
+
+
+/-- representation invariant + capacity bound -/
+def Inv (c : Cache K V) (L : List (Tr K V)) : Prop := Rep c L ∧ L.length ≤ c.cap ∧ 0 < c.cap
+
+omit [DecidableEq K] in
+theorem rep_idx_length (c : Cache K V) (L : List (Tr K V)) (hr : Rep c L) : c.idx.length = L.length := by
+  rw [hr.idx.length_eq, List.length_map]
+
+omit [DecidableEq K] in
+theorem rep_last_node (c : Cache K V) (X : List (Tr K V)) (t : Tr K V) (hr : Rep c (X ++ [t])) :
+    ∃ p, c.heap t.1 = some { prev := p, next := none, key := t.2.1, val := t.2.2 } := by
+  have := hr.seg
+  rw [segT_append] at this
+  exact ⟨_, this.2.1⟩
+
+theorem get_spec (c : Cache K V) (L : List (Tr K V)) (k : K) (hi : Inv c L) :
+    ∃ c' r L', get c k = some (c', r) ∧ Inv c' L' ∧ c'.cap = c.cap ∧ (L'.map ent, r) = Spec.get (L.map ent) k := by
+  obtain ⟨hr, hlen, hcap⟩ := hi
+  cases h : lookupIdx c.idx k with
+  | none =>
+    refine ⟨c, none, L, by simp [get, h], ⟨hr, hlen, hcap⟩, rfl, ?_⟩
+    simp [Spec.get, find_none L k (rep_lookup_none c L hr k h)]
+  | some i =>
+    obtain ⟨v, A, B, rfl⟩ := rep_lookup_some c L hr k i h
+    obtain ⟨c', hm, hr', hc, _⟩ := moveToTail_spec c A B (i, k, v) hr
+    obtain ⟨p, hn⟩ := rep_last_node c' (A ++ B) (i, k, v) hr'
+    have hne := keys_ne_of_nodup A B (i, k, v) hr.keys
+    refine ⟨c', some v, A ++ B ++ [(i, k, v)], ?_, ⟨hr', ?_, by rw [hc]; exact hcap⟩, hc, ?_⟩
+    · simp only [get, h]
+      simp only [] at hm hn
+      simp [hm, hn]
+    · rw [hc]; simpa using hlen
+    · have hf := find_some A B (i, k, v) (fun u hu => hne u (List.mem_append_left _ hu))
+      have he := erase_found A B (i, k, v) hne
+      simp only [] at hf he
+      simp only [Spec.get, hf, Spec.touch, he]
+      simp [ent]
+
+theorem removeKey_spec (c : Cache K V) (L : List (Tr K V)) (k : K) (hi : Inv c L) :
+    ∃ c' r L', removeKey c k = some (c', r) ∧ Inv c' L' ∧ c'.cap = c.cap ∧ (L'.map ent, r) = Spec.removeKey (L.map ent) k := by
+  obtain ⟨hr, hlen, hcap⟩ := hi
+  cases h : lookupIdx c.idx k with
+  | none =>
+    refine ⟨c, false, L, by simp [removeKey, h], ⟨hr, hlen, hcap⟩, rfl, ?_⟩
+    simp [Spec.removeKey, find_none L k (rep_lookup_none c L hr k h)]
+  | some i =>
+    obtain ⟨v, A, B, rfl⟩ := rep_lookup_some c L hr k i h
+    obtain ⟨c', hm, hr', hc, _⟩ := remove_spec c A B (i, k, v) hr
+    have hne := keys_ne_of_nodup A B (i, k, v) hr.keys
+    refine ⟨c', true, A ++ B, ?_, ⟨hr', ?_, by rw [hc]; exact hcap⟩, hc, ?_⟩
+    · simp only [removeKey, h]
+      simp only [] at hm
+      simp [hm]
+    · rw [hc]; simp at hlen ⊢; omega
+    · have hf := find_some A B (i, k, v) (fun u hu => hne u (List.mem_append_left _ hu))
+      have he := erase_found A B (i, k, v) hne
+      simp only [] at hf he
+      simp only [Spec.removeKey, hf, he]
+
+theorem insert_spec (c : Cache K V) (L : List (Tr K V)) (k : K) (v : V) (hi : Inv c L)
+    (hk : ∀ t ∈ L, t.2.1 ≠ k) :
+    ∃ c' L', insert c k v = some c' ∧ Inv c' L' ∧ c'.cap = c.cap ∧ L'.map ent = Spec.add c.cap (L.map ent) k v := by
+  obtain ⟨hr, hlen, hcap⟩ := hi
+  have hil := rep_idx_length c L hr
+  by_cases hfull : L.length = c.cap
+  · cases L with
+    | nil => simp at hfull; omega
+    | cons hd L' =>
+      have hhead : c.head = some hd.1 := hr.head
+      obtain ⟨c1, hm, hr1, hc1, _⟩ := remove_spec c [] L' hd hr
+      obtain ⟨c2, hm2, hr2, hc2⟩ := insert_tail c1 L' k v hr1 (fun t ht => hk t (by simp [ht]))
+      refine ⟨c2, _, ?_, ⟨hr2, ?_, by rw [hc2, hc1]; exact hcap⟩, by rw [hc2, hc1], ?_⟩
+      · simp only [insert, hil, hfull, if_true, hhead]
+        simp [hm, hm2]
+      · rw [hc2, hc1]; simp at hfull ⊢; omega
+      · have : L'.length + 1 = c.cap := by simpa using hfull
+        simp [Spec.add, this, ent]
+  · obtain ⟨c2, hm2, hr2, hc2⟩ := insert_tail c L k v hr hk
+    refine ⟨c2, _, ?_, ⟨hr2, ?_, by rw [hc2]; exact hcap⟩, hc2, ?_⟩
+    · simp only [insert, hil, hfull, if_false]
+      simp [hm2]
+    · rw [hc2]; simp; omega
+    · simp [Spec.add, hfull, ent]
+
+
+omit [DecidableEq K] in
+theorem rep_set_val (c : Cache K V) (A B : List (Tr K V)) (i : Nat) (k : K) (v0 v : V)
+    (hr : Rep c (A ++ (i, k, v0) :: B)) :
+    ∃ n, c.heap i = some n ∧ Rep { c with heap := upd c.heap i { n with val := v } } (A ++ (i, k, v) :: B) := by
+  have hseg := hr.seg
+  rw [segT_append] at hseg
+  obtain ⟨hA, ht, hB⟩ := hseg
+  have hne := ids_ne_of_nodup A B (i, k, v0) hr.ids
+  have hhead : c.head = nextOf (A ++ (i, k, v) :: B) none := by
+    have := hr.head; rw [nextOf_append] at this ⊢; simpa [nextOf] using this
+  refine ⟨_, ht, ⟨by simpa using hr.ids, by simpa using hr.keys, ?_, hhead,
+    by simpa [lastOf_append, lastOf_cons] using hr.tail, by simpa using hr.idx, ?_⟩⟩
+  · rw [segT_append]
+    refine ⟨?_, ?_, ?_⟩
+    · rw [segT_frame]; simpa [nextOf] using hA
+      intro u hu; exact hne u (List.mem_append_left _ hu)
+    · simp [upd, nextOf]
+    · rw [segT_frame]; exact hB
+      intro u hu; exact hne u (List.mem_append_right _ hu)
+  · intro u hu
+    rcases List.mem_append.mp hu with h | h
+    · exact hr.fresh u (List.mem_append_left _ h)
+    · rcases List.mem_cons.mp h with h | h
+      · subst h; exact hr.fresh (i, k, v0) (by simp)
+      · exact hr.fresh u (List.mem_append_right _ (List.mem_cons_of_mem _ h))
+
+theorem set_spec (c : Cache K V) (L : List (Tr K V)) (k : K) (v : V) (hi : Inv c L) :
+    ∃ c' L', set c k v = some c' ∧ Inv c' L' ∧ c'.cap = c.cap ∧ L'.map ent = Spec.set c.cap (L.map ent) k v := by
+  cases h : lookupIdx c.idx k with
+  | none =>
+    have hk := rep_lookup_none c L hi.1 k h
+    obtain ⟨c', L', h1, h2, h3, h4⟩ := insert_spec c L k v hi hk
+    refine ⟨c', L', by simp [set, h, h1], h2, h3, ?_⟩
+    simp only [Spec.set, find_none L k hk]; exact h4
+  | some i =>
+    obtain ⟨hr, hlen, hcap⟩ := hi
+    obtain ⟨v0, A, B, rfl⟩ := rep_lookup_some c L hr k i h
+    obtain ⟨n, hn, hr1⟩ := rep_set_val c A B i k v0 v hr
+    obtain ⟨c', hm, hr', hc, _⟩ := moveToTail_spec _ A B (i, k, v) hr1
+    have hne := keys_ne_of_nodup A B (i, k, v0) hr.keys
+    refine ⟨c', A ++ B ++ [(i, k, v)], ?_, ⟨hr', ?_, by rw [hc]; exact hcap⟩, hc, ?_⟩
+    · simp only [set, h]
+      simp only [] at hm
+      simp [hn, hm]
+    · rw [hc]; simpa using hlen
+    · have hf := find_some A B (i, k, v0) (fun u hu => hne u (List.mem_append_left _ hu))
+      have he := erase_found A B (i, k, v0) hne
+      simp only [] at hf he
+      simp only [Spec.set, hf, Spec.touch, he]
+      simp [ent]
+
+theorem insertNew_spec (c : Cache K V) (L : List (Tr K V)) (k : K) (v : V) (hi : Inv c L) :
+    ∃ c' r L', insertNew c k v = some (c', r) ∧ Inv c' L' ∧ c'.cap = c.cap ∧
+      (L'.map ent, r) = Spec.insertNew c.cap (L.map ent) k v := by
+  cases h : lookupIdx c.idx k with
+  | none =>
+    have hk := rep_lookup_none c L hi.1 k h
+    obtain ⟨c', L', h1, h2, h3, h4⟩ := insert_spec c L k v hi hk
+    refine ⟨c', true, L', by simp [insertNew, h, h1], h2, h3, ?_⟩
+    simp only [Spec.insertNew, find_none L k hk, h4]
+  | some i =>
+    obtain ⟨v0, A, B, rfl⟩ := rep_lookup_some c L hi.1 k i h
+    have hne := keys_ne_of_nodup A B (i, k, v0) hi.1.keys
+    have hf := find_some A B (i, k, v0) (fun u hu => hne u (List.mem_append_left _ hu))
+    simp only [] at hf
+    exact ⟨c, false, _, by simp [insertNew, h], hi, rfl, by simp only [Spec.insertNew, hf]⟩
+
+theorem contains_spec (c : Cache K V) (L : List (Tr K V)) (k : K) (hi : Inv c L) :
+    contains c k = (Spec.find (L.map ent) k).isSome := by
+  cases h : lookupIdx c.idx k with
+  | none => simp [contains, h, find_none L k (rep_lookup_none c L hi.1 k h)]
+  | some i =>
+    obtain ⟨v0, A, B, rfl⟩ := rep_lookup_some c L hi.1 k i h
+    have hne := keys_ne_of_nodup A B (i, k, v0) hi.1.keys
+    have hf := find_some A B (i, k, v0) (fun u hu => hne u (List.mem_append_left _ hu))
+    simp only [] at hf
+    simp only [contains, h, hf, Option.isSome_some]
+
+/-- every operation preserves the invariant and answers like the specification -/
+theorem step_spec (c : Cache K V) (L : List (Tr K V)) (o : Op K V) (hi : Inv c L) :
+    ∃ c' out L', step c o = some (c', out) ∧ Inv c' L' ∧ c'.cap = c.cap ∧
+      (L'.map ent, out) = Spec.step c.cap (L.map ent) o := by
+  cases o with
+  | get k =>
+    obtain ⟨c', r, L', h1, h2, h3, h4⟩ := get_spec c L k hi
+    refine ⟨c', .got r, L', by simp [step, h1], h2, h3, ?_⟩
+    simp only [Spec.step, ← h4]
+  | set k v =>
+    obtain ⟨c', L', h1, h2, h3, h4⟩ := set_spec c L k v hi
+    exact ⟨c', .done, L', by simp [step, h1], h2, h3, by simp only [Spec.step, h4]⟩
+  | insert k v =>
+    obtain ⟨c', r, L', h1, h2, h3, h4⟩ := insertNew_spec c L k v hi
+    refine ⟨c', .flag r, L', by simp [step, h1], h2, h3, ?_⟩
+    simp only [Spec.step, ← h4]
+  | remove k =>
+    obtain ⟨c', r, L', h1, h2, h3, h4⟩ := removeKey_spec c L k hi
+    refine ⟨c', .flag r, L', by simp [step, h1], h2, h3, ?_⟩
+    simp only [Spec.step, ← h4]
+  | contains k =>
+    exact ⟨c, .flag (contains c k), L, by simp [step], hi, rfl, by simp only [Spec.step, contains_spec c L k hi]⟩
+
+theorem run_spec (c : Cache K V) (L : List (Tr K V)) (ops : List (Op K V)) (hi : Inv c L) :
+    ∃ c' outs L', run c ops = some (c', outs) ∧ Inv c' L' ∧ c'.cap = c.cap ∧
+      (L'.map ent, outs) = Spec.run c.cap (L.map ent) ops := by
+  induction ops generalizing c L with
+  | nil => exact ⟨c, [], L, rfl, hi, rfl, rfl⟩
+  | cons o rest ih =>
+    obtain ⟨c1, out, L1, h1, h2, h3, h4⟩ := step_spec c L o hi
+    obtain ⟨c2, outs, L2, g1, g2, g3, g4⟩ := ih c1 L1 h2
+    refine ⟨c2, out :: outs, L2, by simp [run, h1, g1], g2, by rw [g3, h3], ?_⟩
+    rw [h3] at g4
+    simp only [Spec.run, ← h4, ← g4]
+
+
+omit [DecidableEq K] in
+theorem walkNext_seg (h : Heap K V) (L : List (Tr K V)) (p : Option Nat) (fuel : Nat)
+    (hs : SegT h p L none) (hf : L.length ≤ fuel) : walkNext h (nextOf L none) fuel = (L.map ent, true) := by
+  induction L generalizing p fuel with
+  | nil => cases fuel <;> simp [walkNext, nextOf]
+  | cons t r ih =>
+    cases fuel with
+    | zero => simp at hf
+    | succ f =>
+      obtain ⟨h1, h2⟩ := hs
+      have := ih (some t.1) f h2 (by simpa using hf)
+      have e : nextOf (t :: r) none = some t.1 := rfl
+      rw [e]
+      simp only [walkNext, h1, this]
+      simp [ent]
+
+omit [DecidableEq K] in
+theorem walkPrev_seg (h : Heap K V) (n : Nat) : ∀ (L : List (Tr K V)) (nx : Option Nat) (fuel : Nat),
+    L.length = n → SegT h none L nx → L.length ≤ fuel → walkPrev h (lastOf L none) fuel = ((L.map ent).reverse, true) := by
+  induction n with
+  | zero =>
+    intro L nx fuel hl _ _
+    have : L = [] := List.length_eq_zero_iff.mp hl
+    subst this
+    cases fuel <;> simp [walkPrev, lastOf]
+  | succ m ih =>
+    intro L nx fuel hl hs hf
+    rcases List.eq_nil_or_concat L with rfl | ⟨X, t, rfl⟩
+    · simp at hl
+    · rw [List.concat_eq_append] at *
+      cases fuel with
+      | zero => simp at hf
+      | succ f =>
+        rw [segT_append] at hs
+        obtain ⟨hX, ht, _⟩ := hs
+        have hlX : X.length = m := by simpa using hl
+        have := ih X _ f hlX hX (by simp at hf; omega)
+        rw [lastOf_append_singleton]
+        simp only [walkPrev, ht, this]
+        simp [ent]
+
+omit [DecidableEq K] in
+theorem new_inv (capacity : Int) : Inv (new capacity : Cache K V) [] := by
+  refine ⟨⟨by simp, by simp, trivial, rfl, rfl, by simp [new], by simp⟩, by simp, ?_⟩
+  simp only [new]
+  split
+  · decide
+  · omega
+
+
+/-- The refinement theorem in the form used by `SSV.C17.lru_refines_map`. -/
+theorem run_refines (capacity : Int) (ops : List (Op K V)) :
+    ∃ c outs s,
+      run (new capacity) ops = some (c, outs) ∧
+      Spec.run (new capacity : Cache K V).cap [] ops = (s, outs) ∧
+      all c = (s, true) ∧ backward c = (s.reverse, true) ∧ len c = s.length ∧
+      (s.map Prod.fst).Nodup ∧ s.length ≤ c.cap ∧ c.cap = (new capacity : Cache K V).cap := by
+  obtain ⟨c, outs, L, h1, ⟨hr, hlen, _⟩, hc, h4⟩ := run_spec (new capacity : Cache K V) [] ops (new_inv capacity)
+  have hil := rep_idx_length c L hr
+  refine ⟨c, outs, L.map ent, h1, ?_, ?_, ?_, ?_, ?_, ?_, hc⟩
+  · simpa using h4.symm
+  · simp only [all, hr.head, hil]
+    exact walkNext_seg c.heap L none _ hr.seg (Nat.le_succ _)
+  · simp only [backward, hr.tail, hil]
+    exact walkPrev_seg c.heap L.length L none _ rfl hr.seg (Nat.le_succ _)
+  · simp [len, hil]
+  · have : (L.map ent).map Prod.fst = L.map (·.2.1) := by simp [ent, Function.comp_def]
+    rw [this]; exact hr.keys
+  · simpa using hlen
+
 end SSV.Lru
